@@ -4,6 +4,7 @@ package main
 // execution of their SSA form.  See /verif/DESIGN.md.
 
 import (
+	"runtime/pprof"
 	"crypto/sha1"
 	"encoding/json"
 	"flag"
@@ -254,6 +255,11 @@ func runWorker(res *WorkerResult, repo, prop, harness, tier, solverKind string, 
 		return err
 	}
 	res.LoadS = time.Since(t0).Seconds()
+	if pf := os.Getenv("GOSYM_CPUPROFILE"); pf != "" {
+		f, _ := os.Create(pf)
+		pprof.StartCPUProfile(f)
+		defer pprof.StopCPUProfile()
+	}
 	if outPath != "" {
 		os.WriteFile(outPath+".loaded", nil, 0o644)
 	}
